@@ -61,3 +61,58 @@ func checkLockPaired(c *Ctx, r *Report) {
 		r.Unk(rule, "mutex acquisitions", "-", "no Lock/RLock on a struct-field mutex found in the library")
 	}
 }
+
+// checkEOFChain: the channel reader recognises "the peer closed the stream" with errors.Is(err, io.EOF) and then leaves
+// quietly; every function that hands a transport read error upwards must therefore keep the chain (return it as is, or
+// wrap it with %w). A %v/%s wrap turns EOF into an ordinary error: the reader forwards it to Errs and parks there, and
+// the next Close closes Errs under it (panic: send on closed channel).
+func checkEOFChain(c *Ctx, r *Report) {
+	rule := "C07/eof-chain"
+	var fns []*ssa.Function
+	for _, impl := range []string{"System", "Standard", "Telnet", "File"} {
+		if fn := c.LookupFunc("transport", impl, "Read"); fn != nil {
+			fns = append(fns, fn)
+		}
+	}
+	for _, n := range []string{"read", "Read", "ReadN"} {
+		if fn := c.LookupFunc("transport", "Transport", n); fn != nil {
+			fns = append(fns, fn)
+		}
+	}
+	if len(fns) < 5 {
+		r.Anchor(rule, "transport.{System,Standard,Telnet}.Read / Transport.read / Read / ReadN")
+		return
+	}
+	for _, fn := range fns {
+		construct := shortFn(fn) + " keeps the error chain"
+		bad := ""
+		pos := c.Pos(fn.Pos())
+		undec := false
+		allInstrs(fn, func(in ssa.Instruction) {
+			call, ok := in.(*ssa.Call)
+			if !ok {
+				return
+			}
+			verbs, decided := relayedErrorVerbs(call)
+			if !decided {
+				undec = true
+				pos = c.Pos(call.Pos())
+				return
+			}
+			for _, v := range verbs {
+				if v != 'w' {
+					bad = "a read error is wrapped with a verb other than %w: errors.Is(err, io.EOF) in the channel's read loop no longer recognises that the peer closed the stream, so the reader forwards the error and parks in the send on Errs -- where the next Close kills it (send on closed channel)"
+					pos = c.Pos(call.Pos())
+				}
+			}
+		})
+		switch {
+		case bad != "":
+			r.Bad(rule, construct, pos, bad)
+		case undec:
+			r.Unk(rule, construct, pos, "an error is built with a non-constant format")
+		default:
+			r.OK(rule, construct, pos, "read errors are returned as they are or wrapped with %w")
+		}
+	}
+}
